@@ -19,6 +19,11 @@ THEOREMS = [
          "neighbours, surroundings and shelf of conductance × temperature difference", strength="full"),
     dict(name="Snow.C01.heat_cancels", clause="heat exchanged between vials sums to zero over the batch "
          "(symmetric neighbour relation)", strength="full"),
+    dict(name="Snow.C01.q_refines_shape", clause="for every declared shape and both arrangements (no hypothesis on the "
+         "neighbour structure): net heat flow = sum over the GEOMETRIC neighbours of k_int·A·(T_j−T_i) + "
+         "(maxNbr − #neighbours) faces to the surroundings + shelf", strength="full"),
+    dict(name="Snow.C01.heat_cancels_shape", clause="for every declared shape and both arrangements the heat exchanged "
+         "between vials sums to zero over the batch (no hypothesis)", strength="full"),
     dict(name="Snow.C01.vial_trichotomy", clause="a vial transition is exactly one of: sensible cooling, nucleation "
          "jump of a supercooled liquid vial to the selected formulation, equilibrium solidification; which one is "
          "decided by sigma = 0 and the nucleation decision (any q, kb, dice, CN flag)", strength="full"),
@@ -44,8 +49,8 @@ TRUSTED = [
     "theorems are over the reals: IEEE rounding is not modelled",
     "hand-written model SnowModel/Flake.lean tied to Snowflake.run by this differential check "
     "(every vial and step of real runs, rtol 1e-9, nucleation steps exactly)",
-    "the interaction structure (neighbour lists, external-face counts) is an input of the model, read from the real "
-    "object; that it is the declared geometry is C09 (the predicates here re-check it for the square arrangement)",
+    "the interaction structure is COMPUTED by the model from the declared arrangement and shape (SnowModel/FlakeGeom.lean "
+    "on top of the C09 topology model) and compared with the real object's interaction matrix, H_int and H_ext as used",
     "numpy's generators: their output is input to the model (recorded by a proxy assigned to S._rng)",
     "the derived constants are sent as numbers; their formulas are theorem derived_constants_used + C19",
 ]
@@ -139,6 +144,29 @@ def square_nbrs(shape):
     return out
 
 
+def hex_nbrs(shape):
+    """hexagonal packing: rows are offset alternately by half a pitch (odd rows to +x); in a layer a
+    vial touches the two vials one pitch away in its row and the vials half a pitch away in the
+    adjacent rows; plus the vial directly above/below"""
+    nx, ny, nz = shape
+
+    def pos(x, y):
+        return 2 * x + (y % 2)
+
+    cs = [(x, y, z) for z in range(nz) for y in range(ny) for x in range(nx)]
+    out = []
+    for (x, y, z) in cs:
+        row = []
+        for j, (a, b, c) in enumerate(cs):
+            same_layer = c == z and ((b == y and abs(pos(a, b) - pos(x, y)) == 2)
+                                     or (abs(b - y) == 1 and abs(pos(a, b) - pos(x, y)) == 1))
+            vertical = a == x and b == y and abs(c - z) == 1
+            if same_layer or vertical:
+                row.append(j)
+        out.append(row)
+    return out
+
+
 def transitions(impl):
     Xs = np.asarray(impl["Xsigma"])
     liq0 = Xs[:-1] == 0
@@ -173,15 +201,12 @@ def predicates(case, impl):
         return out
     # --- geometry -----------------------------------------------------------
     nbrs = impl["nbrs"]
-    if arr == "square":
-        geo = square_nbrs(case["N_vials"])
-        if [sorted(r) for r in nbrs] != geo:
-            bad = next(i for i in range(n) if sorted(nbrs[i]) != geo[i])
-            fail("geometric_neighbours", f"vial {bad}: code {sorted(nbrs[bad])} vs geometry {geo[bad]}")
-            return out
-        maxint = 4 + (2 if nz > 1 else 0)
-    else:
-        maxint = 6 + (2 if nz > 1 else 0)
+    geo = square_nbrs(case["N_vials"]) if arr == "square" else hex_nbrs(case["N_vials"])
+    if [sorted(r) for r in nbrs] != geo:
+        bad = next(i for i in range(n) if sorted(nbrs[i]) != geo[i])
+        fail("geometric_neighbours", f"vial {bad}: code {sorted(nbrs[bad])} vs geometry {geo[bad]}")
+        return out
+    maxint = (4 if arr == "square" else 6) + (2 if nz > 1 else 0)
     W = np.zeros((n, n))
     for i, r in enumerate(nbrs):
         for j in r:
@@ -192,6 +217,12 @@ def predicates(case, impl):
     ext = maxint - deg
     if [int(x) for x in ext] != impl["ext"]:
         fail("external_faces", f"external face counts {impl['ext']} vs {maxint} - degree")
+    Hext = np.asarray(impl["Hext"])
+    wantH = ext * impl["kExt"] * A_ext(impl)
+    if np.any(np.abs(Hext - wantH) > 1e-9 * np.maximum(np.abs(Hext), np.abs(wantH))):
+        i = int(np.argmax(np.abs(Hext - wantH)))
+        fail("external_faces", f"H_ext[{i}] used {Hext[i]!r} vs (max - neighbours)*k_ext*A {wantH[i]!r}")
+        return out
     # shelf coefficient: s0 (+ relative variability) on a shelf, none in a pallet
     ksh = fu.spec_kshelf(case, impl)      # implied by the configured coefficients + recorded normals
     msg = fu.check_kshelf(case, impl)
@@ -274,6 +305,10 @@ def predicates(case, impl):
     if np.any(XT[0] != T0) or np.any(Xs[0] != 0):
         fail("initial_state", f"column 0 is not T_k_0={T0}, sigma=0")
     return out
+
+
+def A_ext(impl):
+    return impl["A"]
 
 
 def classify(case, impl):
@@ -504,8 +539,23 @@ def _tiny(rng, tier):
                 initIce=rng.choice(["indirect", "direct", "Direct"]), threshold=0.9, eps=eps)
 
 
+def _late_cn(rng, tier):
+    """controlled nucleation that triggers AFTER some vials have nucleated spontaneously: at the
+    trigger step only the still-liquid supercooled vials may nucleate"""
+    hold = rng.choice([-18.0, -20.0, -22.5])
+    return dict(kind="late-cn", N_vials=[rng.randint(2, 4), rng.randint(2, 4), 1],
+                k={"int": rng.choice([5, 20]), "ext": rng.choice([5, 20]), "s0": rng.choice([300, 500]),
+                   "s_sigma_rel": rng.choice([0, 0.1])},
+                dt=2.0, seed=rng.randint(0, 10**6), seed_v=rng.randint(0, 10**6),
+                opcond=dict(t_tot=900.0, start=5.0, stop=-40.0, rate=rng.choice([0.1, 0.08]),
+                            holds=[[hold, rng.choice([150.0, 250.0])]], cnTemp=hold),
+                T0=None, config=None, initIce=rng.choice(["indirect", "direct"]), threshold=0.9)
+
+
 def cases(rng, tier):
-    n, nh, nt = (48, 12, 6) if tier == "quick" else (1300, 150, 50)
+    for _ in range(4 if tier == "quick" else 40):
+        yield _late_cn(rng, tier)
+    n, nh, nt = (44, 12, 6) if tier == "quick" else (1300, 150, 50)
     for _ in range(n):
         yield _structured(rng, tier)
     for j in range(nh):
